@@ -1,7 +1,7 @@
 """Layout / capacity agreement rules (C03 layout clause, C11 reader-writer agreement)."""
 import re
 from facts import callee_name, strip_refs
-from guards import describe, guards_at, eval_int, find_call
+from guards import describe, guards_at, eval_int, find_call, inlined_sites, inlined_bodies, described_guards, anchors
 from callgraph import ALLOC_SITES
 
 HB = "repr::heap_buffer::HeapBuffer::"
@@ -101,7 +101,8 @@ def rule_layout_agreement(ctx, rule="LAYOUT"):
             # shape: the Layout returned is exactly Layout::from_size_align(SIZE, ALIGN) — as
             # `from_size_align(..).map_err(..)` or `match .. { Ok(l) => Ok(l), .. }` — with nothing
             # applied to it afterwards
-            m = re.match(r"^core::result::Result::<T, E>::map_err\(core::alloc::layout::Layout::from_size_align\(", d) or re.match(r"^core::result::Result::Ok\{ok\(core::alloc::layout::Layout::from_size_align\(", d)
+            m = (re.match(r"^core::result::Result::<T, E>::map_err\(core::alloc::layout::Layout::from_size_align\(", d) or re.match(r"^core::result::Result::Ok\{ok\(core::alloc::layout::Layout::from_size_align\(", d)
+                 or re.match(r"^core::result::Result::Ok\{tuple::None\{ok\(core::alloc::layout::Layout::from_size_align\(", d))
             ctx.ob(rule, lfc.path, "layout=from_size_align(size, align)", bool(m), how="result is Layout::from_size_align(size, align) with the error mapped to ReserveError, untransformed",
                    detail="layout_from_capacity post-processes the layout (%s...): realloc sizes the block by hand and would disagree" % d[:120])
             fb = find_call(lfc, e, ("core::alloc::layout::Layout::from_size_align",))
@@ -123,7 +124,7 @@ def rule_layout_agreement(ctx, rule="LAYOUT"):
             n = callee_name(t)
             if n == "alloc::alloc::alloc":
                 d = describe(b, b.origin_operand(t["args"][0]))
-                ctx.ob(rule, path, "alloc-layout", d == "ok(%slayout_from_capacity(p1))" % HB, how="alloc(layout_from_capacity(capacity)?)", detail="alloc called with layout %s" % d)
+                ctx.ob(rule, path, "alloc-layout", d in ("ok(%slayout_from_capacity(p1))" % HB, "ok(%slayout_from_capacity(p1)).0" % HB), how="alloc(layout_from_capacity(capacity)?)", detail="alloc called with layout %s" % d)
             elif n == "alloc::alloc::dealloc":
                 d = describe(b, b.origin_operand(t["args"][1]))
                 ctx.ob(rule, path, "dealloc-layout", re.search(re_hdr_cap, d) is not None, how="dealloc(layout_from_capacity(header().capacity))", detail="dealloc called with layout %s" % d)
@@ -283,13 +284,23 @@ def rule_capacity_agreement(ctx, rule="C11-cap"):
     sm = F.bodies.get("repr::Repr::as_slice_mut")
     ctx.need(rule, "repr::Repr::capacity", "anchor", rc is not None and sm is not None, "Repr::capacity / as_slice_mut not found")
     if rc and sm:
-        arms = _ret_arms(rc)
-        heap = [d for d, g in arms if _under(g, "repr::Repr::is_heap_buffer", True)]
-        inline = [d for d, g in arms if _under(g, "repr::Repr::is_heap_buffer", False) and _under(g, "repr::Repr::is_static_buffer", False)]
-        static = [d for d, g in arms if _under(g, "repr::Repr::is_static_buffer", True)]
-        ctx.ob(rule, rc.path, "heap-arm", heap == [HB + "capacity(repr::Repr::as_heap_buffer(p1))"], how="heap arm = HeapBuffer::capacity", detail="heap arm of capacity() is %s" % heap)
-        ctx.ob(rule, rc.path, "inline-arm", inline == ["const:repr::MAX_INLINE_SIZE"], how="inline arm = MAX_INLINE_SIZE", detail="inline arm of capacity() is %s (the write path uses MAX_INLINE_SIZE = %s bytes)" % (inline, M))
-        ctx.ob(rule, rc.path, "static-arm", static == ["repr::static_buffer::StaticBuffer::len(repr::Repr::as_static_buffer(p1))"], how="static arm = borrowed length", detail="static arm of capacity() is %s" % static)
+        from typestate import Solver, T
+        S = Solver(F)
+        defs = sorted(describe(rc, ("call", bb) if si == "term" else rc.origin_rvalue(x)) for (bb, si, x) in rc.defs.get(0, []))
+        want_defs = sorted(["const:repr::MAX_INLINE_SIZE", HB + "capacity(repr::Repr::as_heap_buffer(p1))", "repr::static_buffer::StaticBuffer::len(repr::Repr::as_static_buffer(p1))"])
+        ctx.ob(rule, rc.path, "results", defs == want_defs, how="capacity() returns HeapBuffer::capacity / borrowed length / MAX_INLINE_SIZE", detail="capacity() can return %s (the write path uses MAX_INLINE_SIZE = %s bytes inline and HeapBuffer::capacity on the heap)" % (defs, M))
+        exp = {"H": (HB + "capacity", "repr::static_buffer::StaticBuffer::len"), "S": ("repr::static_buffer::StaticBuffer::len", HB + "capacity"), "I": (None, None)}
+        for k in ("I", "S", "H"):
+            t0 = T(kind=k, uniq=False, ref="own", acq=False, inc=0, asg=False, dirty=False, ret=None, facts=frozenset())
+            res, ev = S.walk(rc, ("param", 1), t0)
+            called = {c for (f2, site, c, key, desc, line, kk, crate) in ev}
+            must, mustnot = exp[k]
+            if k == "I":
+                ok = HB + "capacity" not in called and "repr::static_buffer::StaticBuffer::len" not in called
+            else:
+                ok = must in called and mustnot not in called
+            ctx.ob(rule, rc.path, "arm[%s]" % k, ok, how="for kind=%s capacity() takes the %s arm" % (k, {"H": "HeapBuffer::capacity", "S": "borrowed-length", "I": "MAX_INLINE_SIZE"}[k]),
+                   detail="capacity() for a %s string calls %s" % (k, sorted(c for c in called if "capacity" in c or "::len" in c)))
         # as_slice_mut: the slice length operand per arm
         for bb, t in sm.calls():
             if callee_name(t).startswith("core::slice::raw::from_raw_parts_mut"):
@@ -357,59 +368,50 @@ def rule_reserve_post(ctx, rule="C11-reserve"):
         bad = [t for t in oks if t.kind == "S" or (t.kind == "H" and not t.uniq) or t.ref != "own"]
         ctx.ob(rule, b.path, "Ok=>exclusive[%s]" % k, bool(oks) and not bad, how="%d Ok exit states from kind=%s, all own their storage exclusively" % (len(oks), k),
                detail="reserve can return Ok in state %s" % [(t.kind, t.uniq, t.ref) for t in bad[:3]])
-    # fast paths: the blocks that return Ok without growing
+    # fast paths: blocks (in reserve or in helpers it is split into) that return Ok without growing
     # (a) unique heap with capacity >= needed  (b) inline with needed <= MAX
     M = F.const_scalar("repr::MAX_INLINE_SIZE")
+    NEED = "checked_add(repr::Repr::len(p1), p2)"
     found_a = found_b = False
-    for bb in range(b.n):
-        gs = guards_at(b, bb)
-        t = b.term(bb)
-        cap_ok = any(g[0] == "cmp2" and g[1] in ("Ge", "Le") and ("HeapBuffer::capacity(" in describe(b, g[2]) + describe(b, g[3])) and ("checked_add(repr::Repr::len(p1), p2)" in describe(b, g[2]) + describe(b, g[3])) and _dir_ok(b, g) for g in gs)
-        inl_ok = _under(gs, "repr::Repr::is_heap_buffer", False) and _under(gs, "repr::Repr::is_static_buffer", False) and any(g[0] == "cmp" and g[3] == M and g[2] is None and "checked_add(repr::Repr::len(p1), p2)" in describe(b, g[1]) for g in gs)
-        if not (cap_ok or inl_ok):
-            continue
-        # from here to return: no allocating call, no assignment to *self
-        reach = b.reachable(bb, unwind=False)
-        bad = []
-        for x in reach:
-            tx = b.term(x)
-            if tx["k"] == "call":
-                k = tx.get("local_key")
-                if (k and cg.may_allocate(k)) or callee_name(tx) in ALLOC_SITES:
-                    if b.dominates(bb, x):
+    from r_reach import nonheap_reached, site_name
+    for hb, sub in inlined_bodies(b):
+        for bb in range(hb.n):
+            gs = described_guards(hb, bb, sub)
+            cap_ok = any(g[0] == "cmp2" and ((g[1] == "Ge" and "HeapBuffer::capacity(" in g[2] and NEED in g[3]) or (g[1] == "Le" and "HeapBuffer::capacity(" in g[3] and NEED in g[2])) for g in gs)
+            inl_ok = any(g[0] == "cmp" and g[3] == M and g[2] is None and NEED in g[1] for g in gs) and not any(g[0] == "pred" and g[1] in ("repr::Repr::is_heap_buffer", "repr::Repr::is_static_buffer") and g[3] is True for g in gs)
+            if not (cap_ok or inl_ok):
+                continue
+            reach = hb.reachable(bb, unwind=False)
+            bad = []
+            for x in reach:
+                if not hb.dominates(bb, x):
+                    continue
+                tx = hb.term(x)
+                if tx["k"] == "call":
+                    k = tx.get("local_key")
+                    if (k and cg.may_allocate(k)) or callee_name(tx) in ALLOC_SITES:
                         bad.append(callee_name(tx))
-            for s in b.blocks[x]["stmts"]:
-                if s["k"] == "assign" and s["lhs"]["p"] == ["deref"] and s["lhs"]["l"] == 1 and b.dominates(bb, x):
-                    bad.append("*self = ..")
-        if cap_ok:
-            found_a = True
-            ctx.ob(rule, b.path, "fast-path:unique-heap-within-capacity", not bad, how="no allocation / reassignment once capacity >= len+additional is established", detail="within-capacity path of reserve still does %s" % bad)
-        if inl_ok:
-            found_b = True
-            ctx.ob(rule, b.path, "fast-path:inline-within-limit", not bad, how="no allocation / reassignment when len+additional <= %d inline" % M, detail="inline-within-limit path of reserve still does %s" % bad)
+                for st in hb.blocks[x]["stmts"]:
+                    if st["k"] == "assign" and st["lhs"]["p"] == ["deref"] and st["lhs"]["l"] == 1:
+                        bad.append("*self = ..")
+            if cap_ok:
+                found_a = True
+                ctx.ob(rule, b.path, "fast-path:unique-heap-within-capacity", not bad, how="no allocation / reassignment once capacity >= len+additional is established", detail="within-capacity path of reserve still does %s" % bad)
+            if inl_ok and not bad:
+                found_b = True
     ctx.need(rule, b.path, "fast-path-a", found_a, "no block of reserve is guarded by `capacity >= len + additional` (the no-reallocation promise has no code path)")
-    ctx.need(rule, b.path, "fast-path-b", found_b, "no block of reserve is guarded by inline `len + additional <= MAX_INLINE_SIZE`")
-    # inline results (capacity MAX_INLINE_SIZE) are produced or kept only when len + additional fits
-    NEED = r"checked_add\(repr::Repr::len\(p1\), p2\)"
-    for bb, t in b.calls():
-        if callee_name(t) == "repr::inline_buffer::InlineBuffer::new":
-            gs = guards_at(b, bb)
-            ok = any(g[0] == "cmp" and g[3] == M and g[2] is None and re.search(NEED, describe(b, g[1])) for g in gs)
-            ctx.ob(rule, b.path, "inline-only-if-needed-fits", ok, line=t.get("line", 0), how="conversion to inline storage behind len + additional <= %d" % M,
-                   detail="reserve converts to the %d-byte inline buffer without `len + additional <= %d` having been established: it returns Ok with capacity() < len() + additional" % (M, M))
-    for bb in range(b.n):
-        if b.term(bb)["k"] != "return" and not any(s["k"] == "assign" and s["lhs"]["l"] == 0 and s["rv"]["k"] == "aggregate" and s["rv"].get("variant_name") == "Ok" for s in b.blocks[bb]["stmts"]):
-            continue
-    # the capacity test itself must come before any growth on the unique path: realloc sites are
-    # dominated by the failing edge of that test
-    for bb, t in b.calls():
-        if callee_name(t) == HB + "realloc":
-            gs = guards_at(b, bb)
-            ok = any(g[0] == "cmp2" and g[1] in ("Lt", "Gt") and "HeapBuffer::capacity(" in describe(b, g[2]) + describe(b, g[3]) for g in gs)
-            ctx.ob(rule, b.path, "realloc-only-when-too-small", ok, how="realloc dominated by capacity < needed", detail="reserve reallocates a unique buffer without first testing that its capacity is insufficient (appending within capacity would move the text)")
-            cap = describe(b, b.origin_operand(t["args"][1]))
-            ctx.ob(rule, b.path, "realloc-capacity=growth-rule", cap == "repr::heap_buffer::amortized_growth(repr::Repr::len(p1), p2)", how="new capacity = amortized_growth(len, additional) >= len + additional",
-                   detail="reserve reallocates to %s" % cap)
+    ctx.need(rule, b.path, "fast-path-b", found_b, "no allocation-free block of reserve is guarded by inline `len + additional <= MAX_INLINE_SIZE`", how="inline within the limit: a block with no allocation and no reassignment")
+    # inline results (capacity MAX_INLINE_SIZE) are produced only when len + additional fits
+    for st in inlined_sites(b, lambda nm: nm == "repr::inline_buffer::InlineBuffer::new"):
+        ok = any(g[0] == "cmp" and g[3] == M and g[2] is None and NEED in g[1] for g in st.guards())
+        ctx.ob(rule, b.path, "inline-only-if-needed-fits", ok, line=st.line, how="conversion to inline storage behind len + additional <= %d" % M,
+               detail="reserve converts to the %d-byte inline buffer without `len + additional <= %d` having been established: it returns Ok with capacity() < len() + additional" % (M, M))
+    # realloc only behind capacity < needed, to the growth rule's value
+    for st in inlined_sites(b, lambda nm: nm == HB + "realloc"):
+        ok = any(g[0] == "cmp2" and g[1] in ("Lt", "Gt") and "HeapBuffer::capacity(" in g[2] + g[3] for g in st.guards())
+        ctx.ob(rule, b.path, "realloc-only-when-too-small", ok, how="realloc dominated by capacity < needed", detail="reserve reallocates a unique buffer without first testing that its capacity is insufficient (appending within capacity would move the text)")
+        cap = st.desc(1)
+        ctx.ob(rule, b.path, "realloc-capacity=growth-rule", cap == "repr::heap_buffer::amortized_growth(repr::Repr::len(p1), p2)", how="new capacity = amortized_growth(len, additional) >= len + additional", detail="reserve reallocates to %s" % cap)
 
 
 def _dir_ok(b, g):
@@ -420,3 +422,51 @@ def _dir_ok(b, g):
     if op == "Le":
         return "HeapBuffer::capacity(" in y and "checked_add" in x
     return False
+
+
+def rule_capacity_roots(ctx, rule="CAPROOT"):
+    """the capacity a constructor allocates with is the one it was asked for:
+    with_capacity(n) -> n, with_exact_capacity(text, n) -> n, new(text) -> len(text)"""
+    F = ctx.F
+    want = {
+        HB + "with_capacity": ("ok(%snew(p1))" % CAP, "the requested capacity"),
+        HB + "new": ("ok(%snew(core::str::<impl str>::len(p1)))" % CAP, "len(text)"),
+    }
+    for fn, (w, what) in want.items():
+        b = F.bodies.get(fn)
+        ctx.need(rule, fn, "anchor", b is not None, "%s not found" % fn)
+        if not b:
+            continue
+        sites = inlined_sites(b, lambda nm: nm == HB + "allocate_ptr")
+        ctx.ob(rule, fn, "one-allocate_ptr", len(sites) == 1, how="one allocate_ptr call", detail="%d allocate_ptr calls" % len(sites))
+        for st in sites:
+            d = st.desc(0)
+            ctx.ob(rule, fn, "capacity-root", d == w, how="allocates exactly %s" % what, detail="%s allocates capacity %s instead of %s: the reported capacity is not the one asked for" % (fn, d, what))
+    b = F.bodies.get(HB + "with_exact_capacity")
+    if b:
+        sites = [(bb, t) for bb, t in b.calls() if callee_name(t) in (HB + "with_capacity", HB + "allocate_ptr")]
+        for bb, t in sites:
+            d = describe(b, b.origin_operand(t["args"][0]))
+            ctx.ob(rule, b.path, "capacity-root", d in ("p2", "ok(%snew(p2))" % CAP), how="allocates exactly the requested capacity", detail="with_exact_capacity allocates %s" % d)
+        ctx.need(rule, b.path, "allocates", len(sites) == 1, "with_exact_capacity has %d allocation calls" % len(sites))
+
+
+def rule_size_hint_use(ctx, rule="C11-hint"):
+    """pre-reservation from an iterator uses the *lower* bound of size_hint (the upper bound only
+    limits how many items may come: reserving it allocates for appends that fit the capacity)"""
+    F = ctx.F
+    n = 0
+    RES = ("LeanString::try_reserve", "LeanString::reserve", "LeanString::try_with_capacity", "LeanString::with_capacity", "repr::Repr::with_capacity", "repr::Repr::reserve")
+    for path, b in F.bodies.items():
+        if not any(callee_name(t).endswith("::size_hint") for _, t in b.calls()):
+            continue
+        for bb, t in b.calls():
+            if callee_name(t) in RES:
+                a = describe(b, b.origin_operand(t["args"][-1]))
+                if "size_hint(" not in a:
+                    continue
+                n += 1
+                ok = re.match(r"^core::iter::traits::iterator::Iterator::size_hint\(.*\)\.0$", a) is not None
+                ctx.ob(rule, path, "reserves-lower-bound:" + callee_name(t).rsplit("::", 1)[1], ok, line=t.get("line", 0), how="reserves size_hint().0",
+                       detail="%s pre-reserves %s: not the lower bound of the size hint" % (path, a))
+    ctx.need(rule, "crate", "sites", n >= 2, "only %d size_hint-driven reservations found" % n, how="%d size_hint-driven reservations" % n)
